@@ -23,6 +23,10 @@ def bases(ctx, tier):
     B["nested2"] = (ops.build(ctx, T, [c("d/e", ["sha1"]), c("d", ["md5"]), c("", ["xxh64"])], expect=[0, 0, 0]), [])
     t5 = dict(T); t5["x.tmp"] = b"ignored"; t5["d/y.tmp"] = b"ignored too"
     B["ignore-pattern"] = (ops.build(ctx, t5, [c("", ["xxh64"], i=["*.tmp"])], expect=[0]), ["*.tmp"])
+    # order-dependent patterns: a negated pattern re-includes what an earlier glob excludes, an anchored one excludes one path only
+    t6 = dict(t5); t6["keep.tmp"] = b"re-included"; t6["d/x.tmp"] = b"ignored (glob)"; t6["d/a.txt"] = b"same name as the anchored one"
+    B["ignore-negated-anchored"] = (ops.build(ctx, t6, [c("", ["xxh64"], i=["*.tmp", "!keep.tmp", "/a.txt"])], expect=[0]),
+                                    ["*.tmp", "!keep.tmp", "/a.txt"])
     B["failed-generation"] = (ops.build(ctx, T, [c("", ["md5"]), ["write", "a.txt", FAILED_CONTENT], c("", ["md5"]),
                                                  ["write", "a.txt", T["a.txt"]]], expect=[0, 11]), [])
     B["empty-folder"] = (ops.build(ctx, {}, [c("", ["xxh64"])], expect=[0]), [])
